@@ -72,7 +72,10 @@ def cases(draw):
     for a in range(na):
         extra = {"ample": 1000, "tight": draw(st.sampled_from([0, 1, 3, 5, 8, 12, 20])),
                  "mixed": draw(st.sampled_from([0, 4, 10, 1000]))}[cap_mode]
-        agents.append({"capacity": own_load[a] + extra,
+        # a hosted computation the replication computation was never told about (ResilientAgent does not hand over
+        # repair computations, named B...): it uses capacity like any other one
+        side = draw(st.sampled_from([0, 0, 0, 2, 4])) if cap_mode != "ample" else 0
+        agents.append({"capacity": own_load[a] + side + extra, "unregistered_footprint": side,
                        "default_hosting_cost": draw(NUM),
                        "hosting": draw(st.lists(st.tuples(st.integers(0, 11), NUM), max_size=3)),
                        "routes": {}})
@@ -150,6 +153,8 @@ def run_case(case):
                                 hosting_costs=hc, default_route=case["default_route"],
                                 routes={names[int(j)]: r for j, r in d["routes"].items()})
                 own = [_StubComp(c, fp[c]) for c in cnames if owner[cnames.index(c)] == a]
+                if d.get("unregistered_footprint"):
+                    own.append(_StubComp("Brepair_" + a, d["unregistered_footprint"]))
                 agents[a] = _StubAgent(a, adef, own)
                 discs[a] = Discovery(a, "addr_" + a)
                 net.add(discs[a].discovery_computation)
